@@ -1,11 +1,14 @@
 //! C20 correspondence harness: several REAL leptos server renders in progress at once on one thread.
 //!
-//! Real stack exercised: `leptos_integration_utils::build_response` (bin `c20`, feature `sandbox`; in bin
-//! `c20g` = global arena, its lines are reproduced below because that crate forces `sandboxed-arenas` on),
-//! `Owner::new_root` + `SsrSharedContext` per request, `RenderHtml::to_html_stream_in_order/_out_of_order`,
-//! `StreamBuilder::poll_next`, tachys `Suspend` / `OwnedView`, leptos `Suspense`, `Provider`, `For`,
-//! `leptos_server::Resource` (+ `ArcAsyncDerived` task, `ScopedFuture`, `Sandboxed`), `on_cleanup`,
-//! `use_context`, `RwSignal` (arena item), `SharedContext::next_id`, `pending_data`.
+//! Real stack exercised (all from /repo's working tree): `leptos_integration_utils::build_response` (bin `c20`,
+//! feature `sandbox` = reactive_graph `sandboxed-arenas`; in bin `c20g` = one global arena its lines are reproduced
+//! below, because that crate forces the feature on), `Owner::new_root` + `SsrSharedContext` per request,
+//! `RenderHtml::to_html_stream_in_order/_out_of_order`, `StreamBuilder::poll_next`, tachys `Suspend` / `OwnedView`,
+//! leptos `Suspense`, `Provider`, `For`, `leptos_router` `Router` + `FlatRoutes` (`choose_ssr`) / `Routes` (nested
+//! router, `Outlet`), `leptos_server::Resource` (`ArcAsyncDerived` task, `ScopedFuture`, `Sandboxed`), `on_cleanup`,
+//! `use_context`, `RwSignal` (arena item), `SharedContext::next_id`, `pending_data`.  `ExtendResponse::from_app` is
+//! NOT linked (it needs a `ServerMetaContextOutput` and awaits the first chunk): its response body — the stream
+//! chained with one element doing `owner.unset()`, all inside `Sandboxed` — is reproduced in `World::start`.
 //! Spawned tasks run on `hx_common::sched`; streams are polled by hand with a no-op waker; async gates are
 //! `oneshot`s completed by `fire` ops.
 //!
@@ -16,25 +19,34 @@
 //!   fire <r> <g>           complete gate g of request r
 //!   ps <r>                 everything r can do alone with the gates fired so far: poll r's ready tasks until none is
 //!                          ready, poll r's stream until it ends or returns Pending 8 times in a row; repeat to a fixpoint
-//!   poll <i>               poll the (i mod len)-th entry of the executor's ready list
-//!   drop <r>               drive r alone to completion (its stream ends with `owner.unset()`, as in `from_app`), drop the stream
+//!   poll <i>               poll the (i mod len)-th entry of the executor's ready list (a task of ANY request)
+//!   drop <r>               fire r's remaining gates, `ps r` (the stream ends with `owner.unset()`, as in `from_app`),
+//!                          drop the stream
 //!   end                    `drop` every remaining started request in ascending order; print observation + verdict
 //! P (no spaces):  L<id> reactive leaf closure | E<id> eager leaf (component body) | C<id> on_cleanup leaf |
 //!   V<k>(P) Provider scope k | S<g>.<pre>.<post>(P) Suspend: pre, await gate g, post, then build P |
-//!   U(P) Suspense | R<g>.<fetch>.<read> Resource (fetcher awaits g, reports) read through Suspend |
+//!   U(P) Suspense | W0(P) Router+FlatRoutes, W1(P) Router+Routes with P as the matched route's view |
+//!   R<g>.<fetch>.<read> Resource (fetcher awaits g, reports) read through Suspend |
 //!   F<n>.<id> For over 0..n | Q(P,P,..) fragment
 //! Every leaf reports `(program's request, leaf id, Tag seen via use_context, per-request signal value,
-//! next SerializedDataId of the current shared context)`, into the HTML and into a log.
+//! next SerializedDataId of the current shared context)` into the HTML and into a log; an `on_cleanup` leaf
+//! reports the per-request signal's value only (whose arena it runs under).
 //! Output of every op except `end`: `ok` (or `bad-op`).  Output of `end`:
-//!   `r0:[<leaf>=<tags seen, sorted>;..] r1:[..] ## ok | fail isolation ..`
-//! Oracle: for each request, HTML and log of the concurrent run == those of the same request replayed ALONE
-//! with the same relative order of its own actions.
+//!   `r0:[<leaf>=<tags seen, sorted>;..] r1:[..] ## ok | fail isolation <which response differs: html|log|incomplete>`
+//! Oracle (independent of the model): for each request, HTML and log of the concurrent run == those of the same
+//! request replayed ALONE (fresh executor, nothing else on the thread) with the same relative order of its own
+//! actions (`Act`), and every stream completes.  `C20_DEBUG=1` prints both HTMLs, logs and panic messages to stderr.
 use futures::channel::oneshot;
 use futures::{Stream, StreamExt};
 use hx_common::*;
 use hydration_context::{SharedContext, SsrSharedContext};
 use leptos::context::Provider;
 use leptos::prelude::*;
+use leptos_router::{
+    components::{FlatRoutes, Route, Router, Routes},
+    location::RequestUrl,
+    StaticSegment,
+};
 use std::collections::{BTreeMap, BTreeSet, HashMap};
 use std::future::Future;
 use std::panic::{catch_unwind, AssertUnwindSafe};
@@ -56,6 +68,8 @@ enum P {
     V(u32, Box<P>),
     S(u32, u32, u32, Box<P>),
     U(Box<P>),
+    /// Router: 0 = FlatRoutes, 1 = Routes (nested router); the child is the matched route's view
+    W(u32, Box<P>),
     R(u32, u32, u32),
     F(u32, u32),
     Q(Vec<P>),
@@ -118,6 +132,16 @@ impl<'a> Parser<'a> {
                 self.eat(b')')?;
                 P::U(Box::new(p))
             }
+            b'W' => {
+                let k = self.num()?;
+                if k > 1 {
+                    return None;
+                }
+                self.eat(b'(')?;
+                let p = self.prog(depth + 1)?;
+                self.eat(b')')?;
+                P::W(k, Box::new(p))
+            }
             b'R' => {
                 let g = self.num()?;
                 self.eat(b'.')?;
@@ -164,6 +188,7 @@ fn show_prog(p: &P) -> String {
         P::V(k, c) => format!("V{k}({})", show_prog(c)),
         P::S(g, a, b, c) => format!("S{g}.{a}.{b}({})", show_prog(c)),
         P::U(c) => format!("U({})", show_prog(c)),
+        P::W(k, c) => format!("W{k}({})", show_prog(c)),
         P::R(g, a, b) => format!("R{g}.{a}.{b}"),
         P::F(n, a) => format!("F{n}.{a}"),
         P::Q(v) => format!("Q({})", v.iter().map(show_prog).collect::<Vec<_>>().join(",")),
@@ -177,7 +202,7 @@ fn gates_of(p: &P, out: &mut Vec<u32>) {
             gates_of(c, out)
         }
         P::R(g, _, _) => out.push(*g),
-        P::V(_, c) | P::U(c) => gates_of(c, out),
+        P::V(_, c) | P::U(c) | P::W(_, c) => gates_of(c, out),
         P::Q(v) => v.iter().for_each(|c| gates_of(c, out)),
         _ => {}
     }
@@ -272,6 +297,29 @@ fn build(p: &P, env: &Env) -> AnyView {
         P::U(c) => {
             let (env2, c) = (env.clone(), (**c).clone());
             view! { <Suspense fallback=|| "F">{build(&c, &env2)}</Suspense> }.into_any()
+        }
+        P::W(kind, c) => {
+            let (env2, c) = (env.clone(), (**c).clone());
+            let route_view = move || build(&c, &env2);
+            if *kind == 0 {
+                view! {
+                    <Router>
+                        <FlatRoutes fallback=|| "NF">
+                            <Route path=StaticSegment("") view=route_view />
+                        </FlatRoutes>
+                    </Router>
+                }
+                .into_any()
+            } else {
+                view! {
+                    <Router>
+                        <Routes fallback=|| "NF">
+                            <Route path=StaticSegment("") view=route_view />
+                        </Routes>
+                    </Router>
+                }
+                .into_any()
+            }
         }
         P::R(g, fetch, read) => {
             let (envf, g, fetch, read) = (env.clone(), *g, *fetch, *read);
@@ -463,7 +511,11 @@ impl World {
             };
             let (owner, mut fut) = build_response(
                 app_fn,
-                move || provide_context(Tag { req: me, scope: 0 }),
+                move || {
+                    provide_context(Tag { req: me, scope: 0 });
+                    // what the integrations' `provide_contexts` gives the router
+                    provide_context(RequestUrl::new("http://leptos.dev/"));
+                },
                 stream_builder,
                 q.ooo,
             );
@@ -702,6 +754,10 @@ fn prog_tags(p: &P, under_async: bool, out: &mut BTreeSet<&'static str>) {
             out.insert("suspense");
             prog_tags(c, true, out)
         }
+        P::W(_, c) => {
+            out.insert("router");
+            prog_tags(c, under_async, out)
+        }
         P::R(..) => {
             out.insert("resource");
         }
@@ -719,7 +775,7 @@ fn exposed(p: &P, late: bool, covered: bool) -> bool {
     match p {
         P::L(_) | P::F(..) => late && !covered,
         P::E(_) | P::C(_) | P::R(..) => false,
-        P::V(_, c) => exposed(c, late, true),
+        P::V(_, c) | P::W(_, c) => exposed(c, late, true),
         P::U(_) => false,
         P::S(_, _, _, c) => exposed(c, true, false),
         P::Q(v) => v.iter().any(|c| exposed(c, late, covered)),
@@ -746,6 +802,12 @@ fn late_kind(p: &P, late: bool, out: &mut BTreeSet<&'static str>) {
             if late {
                 out.insert("late-suspense");
             }
+        }
+        P::W(_, c) => {
+            if late {
+                out.insert("late-router");
+            }
+            late_kind(c, late, out)
         }
         P::S(_, _, _, c) => {
             if late {
@@ -1028,8 +1090,12 @@ fn gen_case(rng: &mut Rng, name: &str, out: &mut String, tier: &str) {
     for r in 0..nreq {
         let mut g = G { rng: rng.clone(), leaf: 0, gate: 0 };
         let depth = if tier == "thorough" { rng.range(1, 4) } else { rng.range(1, 3) } as u32;
-        let p = g.prog(depth, Gc { safe, ..Default::default() });
+        let mut p = g.prog(depth, Gc { safe, ..Default::default() });
         *rng = g.rng;
+        // one request in four is routed: the program is the matched route's view (flat or nested router)
+        if rng.chance(1, 4) {
+            p = P::W(rng.below(2) as u32, Box::new(p));
+        }
         let mode = if rng.chance(1, 2) { "io" } else { "ooo" };
         out.push_str(&format!("req {r} {mode} {}\n", show_prog(&p)));
         let mut gs = vec![];
